@@ -86,6 +86,10 @@ pub struct ReqCase {
     pub headers: [HV; 6],
     /// extra irrelevant header
     pub extra: bool,
+    /// the HTTP layer offers no upgrade for this request (no OnUpgrade extension: what hyper does for HTTP/1.0 and HTTP/2
+    /// requests): a 101 cannot be served, the request must be treated like any other
+    #[serde(default)]
+    pub no_upgrade: bool,
 }
 
 #[derive(Clone, Copy, Debug, PartialEq, Eq)]
@@ -143,10 +147,12 @@ pub fn build_request(c: &ReqCase, path_override: Option<&str>) -> Request<Empty<
         }
     }
     let mut req = b.body(Empty::<Bytes>::new()).unwrap();
-    // the gate is only reachable with an OnUpgrade extension (as hyper's server connection provides)
-    let mut dummy = Request::new(());
-    let on_upgrade = hyper::upgrade::on(&mut dummy);
-    req.extensions_mut().insert(on_upgrade);
+    // the gate is only reachable with an OnUpgrade extension (as hyper's server connection provides for HTTP/1.1)
+    if !c.no_upgrade {
+        let mut dummy = Request::new(());
+        let on_upgrade = hyper::upgrade::on(&mut dummy);
+        req.extensions_mut().insert(on_upgrade);
+    }
     req
 }
 
@@ -232,7 +238,12 @@ pub fn fixture() -> &'static Fixture {
 pub fn check(c: &ReqCase) -> Outcome {
     let fx = fixture();
     let state = &fx.states.iter().find(|s| s.0 == c.cfg).expect("cfg").1;
-    let want = should_upgrade(c);
+    let mut want = should_upgrade(c);
+    if c.no_upgrade && want == Want::Upgrade {
+        // the statement does not mention the HTTP version; without an upgrade offered by the HTTP layer the only well-formed
+        // outcomes are a (futile) 101 or the unknown-path response
+        want = Want::Either;
+    }
     let (got, fallback) = fx.rt.block_on(async {
         let got = call(state, build_request(c, None)).await;
         let fb = call(state, build_request(c, Some("/no-such-path-zz"))).await;
@@ -248,13 +259,14 @@ pub fn check(c: &ReqCase) -> Outcome {
     };
     let desc = || {
         format!(
-            "{} {} [{}] psk={} obfs={} backend={}",
+            "{} {} [{}] psk={} obfs={} backend={}{}",
             METHODS[c.method as usize],
             PATHS[c.path as usize],
             (0..6).map(|h| format!("{}:{:?}", HNAMES[h], c.headers[h])).collect::<Vec<_>>().join(" "),
             c.cfg.psk,
             c.cfg.obfs,
-            c.cfg.backend
+            c.cfg.backend,
+            if c.no_upgrade { " (no upgrade offered by the HTTP layer)" } else { "" }
         )
     };
     let is_upgrade = got.status == 101;
@@ -372,7 +384,7 @@ fn apply(c: &mut ReqCase, p: (u8, u8, u8)) {
 
 pub fn run(ctx: &Ctx, rep: &mut Report) {
     rep.rule = "requests = method {GET,POST,HEAD,PUT,OPTIONS} x path {/ws,/ws?x=1,/ws/,/WS,/wsx,/,/health,/version,/x} x for each of Connection, Upgrade, Sec-WebSocket-Version, Sec-WebSocket-Protocol, Sec-WebSocket-Key, X-Penguin-PSK a variant in {exact, absent, case-changed, prefix, suffix, padded, token list, empty, duplicate valid+valid / valid+invalid / invalid+valid, other} \
-                x server configuration {no PSK, an ASCII PSK, a PSK with octets >= 0x80} x {obfs on/off} x {static 404 body, local deterministic backend}. ALL requests deviating from a valid upgrade in <= 2 places are enumerated under all 12 configurations, random requests beyond. \
+                x server configuration {no PSK, an ASCII PSK, a PSK with octets >= 0x80} x {obfs on/off} x {static 404 body, local deterministic backend}. ALL requests deviating from a valid upgrade in <= 2 places are enumerated under all 12 configurations, random requests beyond; the valid request and every single deviation also without an upgrade offered by the HTTP layer (HTTP/1.0, HTTP/2). \
                 Oracle: reference predicate from the statement; 101 must carry the protocol and the RFC 6455 accept hash (own SHA-1/base64); every other response must equal (status, headers, body) the response to the same request on an unknown path; /health and /version equal it when obfs is on. \
                 Non-trivial = a request to /ws deviating from a valid upgrade in at most two places (incl. the valid one). Distinct = distinct case value."
         .into();
@@ -384,7 +396,7 @@ pub fn run(ctx: &Ctx, rep: &mut Report) {
     ];
     let pl = places();
     let cf = cfgs();
-    let valid = |cfg: Cfg| ReqCase { cfg, method: 0, path: 0, headers: [HV::Exact; 6], extra: false };
+    let valid = |cfg: Cfg| ReqCase { cfg, method: 0, path: 0, headers: [HV::Exact; 6], extra: false, no_upgrade: false };
     let n1 = 1 + pl.len() as u64;
     let two = true; // all requests deviating in <= 2 places, in both tiers
     let n2 = if two { (pl.len() * pl.len()) as u64 } else { 0 };
@@ -410,6 +422,25 @@ pub fn run(ctx: &Ctx, rep: &mut Report) {
         },
         check,
     );
+    // the same single deviations (and the valid request) when the HTTP layer offers no upgrade
+    let pl2 = places();
+    let cf2 = cfgs();
+    ctx.enumerate(
+        rep,
+        "no-upgrade-offered",
+        (1 + pl2.len() as u64) * cf2.len() as u64,
+        50,
+        |i| {
+            let cfg = cf2[(i % cf2.len() as u64) as usize];
+            let k = i / cf2.len() as u64;
+            let mut c = ReqCase { cfg, method: 0, path: 0, headers: [HV::Exact; 6], extra: false, no_upgrade: true };
+            if k > 0 {
+                apply(&mut c, pl2[(k - 1) as usize]);
+            }
+            c
+        },
+        check,
+    );
     ctx.prop(
         rep,
         "random",
@@ -418,8 +449,8 @@ pub fn run(ctx: &Ctx, rep: &mut Report) {
         || {
             let hv = || prop::sample::select(HVS.to_vec());
             let hvb = move || prop_oneof![3 => Just(HV::Exact), 1 => Just(HV::CaseChanged), 2 => hv()];
-            (0u8..3, any::<bool>(), any::<bool>(), prop_oneof![4 => Just(0u8), 1 => 0u8..5], prop_oneof![5 => Just(0u8), 1 => Just(1u8), 2 => 0u8..9], [hvb(), hvb(), hvb(), hvb(), hvb(), hvb()], any::<bool>())
-                .prop_map(|(psk, obfs, backend, method, path, headers, extra)| ReqCase { cfg: Cfg { psk, obfs, backend }, method, path, headers, extra })
+            (0u8..3, any::<bool>(), any::<bool>(), prop_oneof![4 => Just(0u8), 1 => 0u8..5], prop_oneof![5 => Just(0u8), 1 => Just(1u8), 2 => 0u8..9], [hvb(), hvb(), hvb(), hvb(), hvb(), hvb()], (any::<bool>(), prop::bool::weighted(0.15)))
+                .prop_map(|(psk, obfs, backend, method, path, headers, (extra, no_upgrade))| ReqCase { cfg: Cfg { psk, obfs, backend }, method, path, headers, extra, no_upgrade })
         },
         check,
     );
